@@ -21,9 +21,9 @@ import (
 )
 
 const rule = "cases = initial tree x payload (valid / undecodable / bad base64 / failing validation / adds+changes per directory / " +
-	"gateway config / metrics) x endpoint x every fault position (backup read, each save, restore read, each restore store, " +
-	"HAProxy update in reload round 1 and 2, each clean-up remove) x probe-at-publish on/off; " +
-	"non-trivial = the request got past ParsePayload (phase cleanup/save/reload/ok); distinct by (ops, answers)"
+	"gateway config / metrics) x endpoint x every fault position (backup read, each clean-up remove, each save, restore read, " +
+	"restore store of each changed file placed first or last in Go's map order, HAProxy update in reload round 1 and 2) x " +
+	"probe-at-switch on/off; non-trivial = the request got past ParsePayload (phase cleanup/save/reload/ok); distinct by (ops, answers)"
 
 func main() {
 	if os.Getenv(childEnv) == "" {
@@ -85,6 +85,7 @@ type putOp struct {
 	faultArg         string
 	gate             bool
 	corder           []string
+	rfirst           bool
 	probes           []string
 }
 
@@ -179,6 +180,13 @@ func parsePut(ws []string) (*putOp, bool) {
 		return nil, false
 	}
 	p.corder = strings.Split(co, ",")
+	p.rfirst = true
+	if rp, ok := get("rpos"); ok {
+		if rp != "first" && rp != "last" {
+			return nil, false
+		}
+		p.rfirst = rp == "first"
+	}
 	pr, ok := get("probes")
 	if !ok {
 		return nil, false
@@ -217,14 +225,6 @@ func (w *world) snap() treeSnap {
 		}
 	}
 	return s
-}
-
-func (w *world) unsnap(s treeSnap) {
-	w.wipe()
-	for p, b := range s {
-		must(os.MkdirAll(filepath.Dir(p), 0o755))
-		must(os.WriteFile(p, b, 0o644))
-	}
 }
 
 func (w *world) dirFileCount() int {
@@ -279,6 +279,8 @@ func jsonBody(p *putOp) []byte {
 func phaseOf(status int, body string) string {
 	has := func(s string) bool { return strings.Contains(body, s) }
 	switch {
+	case has("Unsupported Method"):
+		return "method"
 	case has("Lunar Gateway config is being updated"):
 		return "ok"
 	case has("Failed to decode incoming data"):
@@ -311,14 +313,16 @@ func (w *world) once(p *putOp) (int, string, []string) {
 	case "rread":
 		w.ctl.AddFault(sched.FaultRule{Op: "read", Nth: w.dirFileCount() + 2 + 1})
 	case "save":
-		if p.faultArg == "um" {
-			w.ctl.AddFault(sched.FaultRule{Op: "store", ArgSuffix: w.l.userMetrics, Nth: 1})
-			w.ctl.AddFault(sched.FaultRule{Op: "store", ArgSuffix: w.l.defMet, Nth: 1})
-		} else if p.faultArg != "dm" {
-			w.ctl.AddFault(sched.FaultRule{Op: "store", ArgSuffix: real(p.faultArg), Nth: 1})
-		}
+		w.ctl.AddFault(sched.FaultRule{Op: "store", ArgSuffix: real(p.faultArg), Nth: 1})
 	case "rstore":
-		w.ctl.AddFault(sched.FaultRule{Op: "store", ArgSuffix: real(p.faultArg), Nth: 2})
+		// the store of this path inside Restore(): its second store if the payload saved it, else its first
+		nth := 1
+		for _, it := range p.items {
+			if it.logical == p.faultArg && it.tok != "@" {
+				nth = 2
+			}
+		}
+		w.ctl.AddFault(sched.FaultRule{Op: "store", ArgSuffix: real(p.faultArg), Nth: nth})
 	case "haproxy":
 		n, _ := strconv.Atoi(p.faultArg)
 		w.ha.set(n)
@@ -362,73 +366,49 @@ loop:
 	return r.st, phaseOf(r.st, r.body), mid
 }
 
-// orderOK: did Go's map iteration produce the order the op line states (only matters for the faults
-// whose effect depends on it)?
-func (w *world) orderOK(p *putOp) bool {
-	switch p.faultKind {
-	case "save":
-		// the same-directory items stored before the faulted one must be exactly those listed before it
-		if !strings.Contains(p.faultArg, "/") {
-			return true
-		}
-		target, _ := w.l.real(p.faultArg)
-		want := map[string]bool{}
-		found := false
-		for _, it := range p.items {
-			if it.logical == p.faultArg {
-				found = true
-				break
-			}
-			if rankOf(it.logical) == rankOf(p.faultArg) {
-				rp, _ := w.l.real(it.logical)
-				want[rp] = true
-			}
-		}
-		if !found {
-			return true
-		}
-		got := map[string]bool{}
-		hit := false
-		for _, s := range w.hook.storeLog() {
-			if s == target {
-				hit = true
-				break
-			}
-			if filepath.Dir(s) == filepath.Dir(target) {
-				got[s] = true
-			}
-		}
-		if !hit {
-			return true
-		}
-		if len(got) != len(want) {
-			return false
-		}
-		for s := range got {
-			if !want[s] {
-				return false
-			}
-		}
+// orderOK: did Go's map iteration put the faulted path where the op line says (first / last among
+// the files Restore() writes back)? Only an `rstore:` fault depends on it.
+func (w *world) orderOK(p *putOp, before treeSnap) bool {
+	if p.faultKind != "rstore" {
 		return true
-	case "clean":
-		if p.ep != "apply_flows" {
-			return true
-		}
-		rm := w.hook.removeLog()
-		var first string
-		for _, s := range rm {
-			if s == w.l.gateway {
-				first = "g"
-				break
-			}
-			if s == w.l.userMetrics {
-				first = "um"
-				break
-			}
-		}
-		return first == "" || first == p.corder[0]
 	}
-	return true
+	target, _ := w.l.real(p.faultArg)
+	nSaved := 0
+	saved := map[string][]byte{}
+	for _, it := range p.items {
+		if it.tok == "@" {
+			return true // rejected by ParsePayload: no restore
+		}
+		rp, _ := w.l.real(it.logical)
+		saved[rp] = renderTok(it.logical, it.tok)
+		nSaved++
+	}
+	log := w.hook.storeLog()
+	if len(log) <= nSaved {
+		return true // no restore ran (or it had nothing to write)
+	}
+	rlog := log[nSaved:]
+	if rlog[len(rlog)-1] != target {
+		return true // the fault never fired
+	}
+	if p.rfirst {
+		return len(rlog) == 1
+	}
+	// last: every other changed / removed file of the backup was written back before
+	diff := 0
+	for path, old := range before {
+		if path == w.l.defMet {
+			continue
+		}
+		cur, ok := saved[path]
+		if !ok && p.ep == "configuration" {
+			continue // untouched
+		}
+		if !ok || string(cur) != string(old) {
+			diff++
+		}
+	}
+	return len(rlog) == diff
 }
 
 var (
@@ -446,109 +426,119 @@ func execCase(c proto.Case, o *proto.Out) []string {
 		tLast = time.Now()
 	}
 	outs := make([]string, len(c.Ops))
-	live := false
-	nontrivial := false
-	for i, op := range c.Ops {
-		ws := strings.Fields(op)
-		if len(ws) == 0 {
-			outs[i] = "bad-op"
-			continue
-		}
-		switch {
-		case ws[0] == "init":
-			entries, ok := parseEntries(ws[1:])
-			if !ok {
-				outs[i] = "bad-op"
-				live = false
-				continue
-			}
-			w.ctl.ClearFaults()
-			w.ctl.ReleaseAll() // nobody may stay parked at the publish point from an aborted case
-			w.ctl.Gate(yieldPoint, false)
-			w.ha.set(0)
-			w.writeTree(entries)
-			st, _ := w.do("POST", "/load_flows", nil)
-			if st == 200 {
-				outs[i] = "ok"
-				live = true
-			} else {
-				outs[i] = "err:load"
-				live = false
-			}
-		case ws[0] == "ls" && len(ws) == 1:
-			if !live {
-				outs[i] = "skip"
-				continue
-			}
-			l := w.ls()
-			if len(l) == 0 {
-				outs[i] = "%e"
-			} else {
-				outs[i] = strings.Join(l, " ")
-			}
-		case ws[0] == "probe" && len(ws) == 2:
-			if !live {
-				outs[i] = "skip"
-				continue
-			}
-			outs[i] = w.probe(splitNames(ws[1]))
-		case ws[0] == "put":
-			p, ok := parsePut(ws[1:])
-			if !ok {
-				outs[i] = "bad-op"
-				continue
-			}
-			if !live {
-				outs[i] = "skip"
-				continue
-			}
-			before := w.snap()
-			var st int
-			var ph string
-			var mid []string
-			tries := 0
-			for {
-				st, ph, mid = w.once(p)
-				tries++
-				if w.orderOK(p) || tries >= 500 {
-					break
-				}
-				// Go ranged over its maps in another order than the op line states: undo and retry
-				// (the engine is untouched: these faults stop the request before any reload)
-				w.unsnap(before)
-			}
-			if tries >= 500 && !w.orderOK(p) {
-				outs[i] = "order-unreachable"
-				continue
-			}
-			if tries > 1 {
-				o.Count("map-order-retries")
-			}
-			o.Count("ep-" + p.ep)
-			o.Count("phase-" + ph)
-			o.Count("status-" + strconv.Itoa(st))
-			o.Count("fault-" + p.faultKind)
-			if p.gate {
-				o.Count(fmt.Sprintf("gate-mid-%d", len(mid)))
-			}
-			if p.method != "PUT" {
-				o.Count("method-" + p.method)
-			}
-			if ph == "cleanup" || ph == "save" || ph == "reload" || ph == "ok" {
-				nontrivial = true
-			}
-			m := "%e"
-			if len(mid) > 0 {
-				m = strings.Join(mid, ";")
-			}
-			outs[i] = fmt.Sprintf("status=%d phase=%s mid=%s", st, ph, m)
-		default:
-			outs[i] = "bad-op"
-		}
+	x := &caseRun{w: w, c: c, o: o}
+	for i := range c.Ops {
+		outs[i] = x.execOp(i)
 	}
 	w.bodies.closeAll()
-	if nontrivial {
+	if x.nontrivial {
 		o.NonTrivial(strings.Join(c.Ops, "|") + "#" + strings.Join(outs, "|"))
 	}
 	return outs
+}
+
+type caseRun struct {
+	w          *world
+	c          proto.Case
+	o          *proto.Out
+	live       bool
+	nontrivial bool
+	replaying  bool // re-running a prefix of the case to re-create its state: no statistics
+}
+
+func (x *caseRun) execOp(i int) string {
+	w, o := x.w, x.o
+	ws := strings.Fields(x.c.Ops[i])
+	if len(ws) == 0 {
+		return "bad-op"
+	}
+	switch {
+	case ws[0] == "init":
+		entries, ok := parseEntries(ws[1:])
+		if !ok {
+			x.live = false
+			return "bad-op"
+		}
+		w.ctl.ClearFaults()
+		w.ctl.ReleaseAll() // nobody may stay parked at the switch point from an aborted case
+		w.ctl.Gate(yieldPoint, false)
+		w.ha.set(0)
+		w.writeTree(entries)
+		st, _ := w.do("POST", "/load_flows", nil)
+		x.live = st == 200
+		if x.live {
+			return "ok"
+		}
+		return "err:load"
+	case ws[0] == "ls" && len(ws) == 1:
+		if !x.live {
+			return "skip"
+		}
+		l := w.ls()
+		if len(l) == 0 {
+			return "%e"
+		}
+		return strings.Join(l, " ")
+	case ws[0] == "probe" && len(ws) == 2:
+		if !x.live {
+			return "skip"
+		}
+		return w.probe(splitNames(ws[1]))
+	case ws[0] == "put":
+		p, ok := parsePut(ws[1:])
+		if !ok {
+			return "bad-op"
+		}
+		if !x.live {
+			return "skip"
+		}
+		var st int
+		var ph string
+		var mid []string
+		tries := 0
+		for {
+			before := w.snap()
+			st, ph, mid = w.once(p)
+			tries++
+			if w.orderOK(p, before) {
+				break
+			}
+			if tries >= 400 {
+				return "order-unreachable"
+			}
+			// Go ranged over the backup in another order than the op line states: re-create the
+			// state before this request by replaying the case up to here (deterministic), try again
+			was := x.replaying
+			x.replaying = true
+			for j := 0; j < i; j++ {
+				x.execOp(j)
+			}
+			x.replaying = was
+		}
+		if x.replaying {
+			return ""
+		}
+		if tries > 1 {
+			o.Count("map-order-retries")
+		}
+		o.Count("ep-" + p.ep)
+		o.Count("phase-" + ph)
+		o.Count("status-" + strconv.Itoa(st))
+		o.Count("fault-" + p.faultKind)
+		if p.gate {
+			o.Count(fmt.Sprintf("gate-mid-%d", len(mid)))
+		}
+		if p.method != "PUT" {
+			o.Count("method-" + p.method)
+		}
+		if ph == "cleanup" || ph == "save" || ph == "reload" || ph == "ok" {
+			x.nontrivial = true
+		}
+		m := "%e"
+		if len(mid) > 0 {
+			m = strings.Join(mid, ";")
+		}
+		return fmt.Sprintf("status=%d phase=%s mid=%s", st, ph, m)
+	}
+	return "bad-op"
 }
